@@ -1,7 +1,10 @@
 use vcommon::ctx::Ctx;
 
-pub fn dispatch(prop: &str, _ctx: Ctx) -> ! {
+pub mod c12;
+
+pub fn dispatch(prop: &str, ctx: Ctx) -> ! {
     match prop {
+        "C12" => c12::run(ctx),
         other => {
             eprintln!("harness error: unknown property {other:?}");
             std::process::exit(2)
